@@ -164,6 +164,10 @@ pub fn execute(source: &str, plan: &FaultPlan, clock: &Rc<VClock>) -> Observed {
     let ts: SharedTick = Default::default();
     ts.lock().unwrap().plan = plan.clone();
     add_sim_natives(&host, &ts);
+    // a planned stream fault: the n-th write to stdout fails
+    if let Some(k) = plan.keys().find(|k| **k > IO_BASE) {
+        host.stdout.state.lock().unwrap().fail_at = Some((*k - IO_BASE) as u64);
+    }
     clock.record_entries.set(false);
     clock.reset(CostProfile::constant(1), 1, STEP_CAP);
     let mut out = Observed {
@@ -603,8 +607,24 @@ pub fn evaluate_program(
             }
         }
     }
+    // every stream write of the fault-free run fails once (fault kind F-io)
+    let mut n_io = 0u64;
+    for pos in 1..=base.io_ops.min(12) {
+        let mut plan = FaultPlan::new();
+        plan.insert(IO_BASE + pos, FaultKind::HostErr);
+        let Some(pred) = run_plan(&plan, &mut ev, &mut dg) else {
+            ev.digest = dg.0;
+            return ev;
+        };
+        n_io += pred.fired as u64;
+        if stop_at_first && !ev.findings.is_empty() {
+            ev.digest = dg.0;
+            return ev;
+        }
+    }
     ev.digest = dg.0;
     ev.counters = vec![
+        ("fault.stream_write_failure.fired", n_io),
         ("fault.host_error.fired", kind_counts[0]),
         ("fault.host_typed_throw.fired", kind_counts[1]),
         ("fault.bad_value.fired", kind_counts[2]),
